@@ -296,6 +296,7 @@ class Driver:
         self.ctx = "boot"
         self.server_caps = None
         self.orm = False
+        self.qa = False
         self.caps = cl.BASE_CAPS
         self.depeof = False
         self.stmts = {}    # id -> dict(nparams, cursor: bool)
@@ -371,6 +372,9 @@ class Driver:
         if self.rng.random() < 0.5:
             caps |= cl.CLIENT_OPTIONAL_RESULTSET_METADATA
         self.orm = bool((self.server_caps or 0) & caps & cl.CLIENT_OPTIONAL_RESULTSET_METADATA)
+        if self.rng.random() < 0.5:
+            caps |= cl.CLIENT_QUERY_ATTRIBUTES
+        self.qa = bool((self.server_caps or 0) & caps & cl.CLIENT_QUERY_ATTRIBUTES)
         self.caps = caps
         p = cl.handshake_response(user=b"user", caps=caps, plugin=b"c0", charset=8)
         if not ok:
@@ -412,7 +416,7 @@ class Driver:
         term = None
         data = None
         if kind == "query":
-            data = bytes([cl.COM_QUERY]) + b"SELECT 1"
+            data = bytes([cl.COM_QUERY]) + (b"\x00\x01" if self.qa else b"") + b"SELECT 1"
             term = "CQuery"
             self.pend_next = ("text", None, None)
         elif kind in ("ping", "resetconn", "debug"):
@@ -438,9 +442,14 @@ class Driver:
         elif kind == "execute":
             sid, cursor = cmd[1], cmd[2]
             n = self.stmts.get(sid, {}).get("nparams", 0)
-            body = struct.pack("<IBI", sid, 1 if cursor else 0, 1)
+            # with CLIENT_QUERY_ATTRIBUTES the flag byte may also carry PARAMETER_COUNT_AVAILABLE (0x08): 0x09 is a cursor
+            pca = self.qa and self.rng.random() < 0.5
+            body = struct.pack("<IBI", sid, (1 if cursor else 0) | (8 if pca else 0), 1)
+            if self.qa and (n or pca):
+                body += cl.lenenc(n)
             if n:
-                body += bytes((n + 7) // 8) + b"\x01" + bytes([types.ColumnType.TINY, 0]) * n + b"\x01" * n
+                ptype = bytes([types.ColumnType.TINY, 0]) + (b"\x00" if self.qa else b"")
+                body += bytes((n + 7) // 8) + b"\x01" + ptype * n + b"\x01" * n
             data = bytes([cl.COM_STMT_EXECUTE]) + body
             term = f"CExecute {sid} {core.coq_bool(cursor)}"
         elif kind == "fetch":
